@@ -69,7 +69,7 @@ def main(pid, tier, seed, replay_path=None):
     t0 = time.time()
     if pid == "C15" and replay_path and replay_path.endswith(".json"):
         return replay_l3(pid, replay_path)
-    if pid == "C13" and replay_path and replay_path.endswith(".json"):
+    if pid in ("C13", "C14") and replay_path and replay_path.endswith(".json"):
         return replay_l3(pid, replay_path, hist=True)
     if pid == "C14" and replay_path and is_stress_case(replay_path):
         return replay_stress(pid, tier, seed, replay_path)
@@ -221,7 +221,24 @@ def main(pid, tier, seed, replay_path=None):
         import c14stress
         fr = c14stress.run(l2, dr, seed, tier, d + ".free", [c for c in base])
         frfails = fr["fails"]
+    # C14 only: the REAL multi-threaded server under concurrent HTTP clients (handlers, factories, geo filter, worker threads)
+    l3c, l3cfails = None, []
+    if pid == "C14" and not replay_path:
+        import l3, l3hist
+        binary, e3 = l3.build_server()
+        if e3:
+            path = cl.write_nofail_replay(pid, "server build (L3 concurrent clients)", str(e3))
+            print("VIOLATION property=%s replay=%s no-failing-input-found" % (pid, path))
+            return 1
+        l3c = l3hist.run_concurrent(binary, seed, tier)
+        l3cfails = l3c["fails"]
     rc, viol = 0, []
+    if l3cfails:
+        why, rd = l3cfails[0]
+        path = l3hist.write_replay(pid, why, rd)
+        print("VIOLATION property=%s replay=%s" % (pid, path))
+        print(l3hist.describe(why, rd))
+        viol.append(path); rc = 1
     if frfails:
         why, info = frfails[0]
         path = c14stress.write_replay(pid, why, info)
@@ -256,7 +273,7 @@ def main(pid, tier, seed, replay_path=None):
         print("VIOLATION property=%s replay=%s" % (pid, path))
         print("  %s\n  cache mode: %s\n  op   : %s\n  impl : %s\n  model: %s" % (why, mode, r["op"], r["impl"][:300], r["model"][:300]))
         viol.append(path); rc = 1
-    elif not po["ok"] and not l3fails and not l3hfails and not viol:
+    elif not po["ok"] and not l3fails and not l3hfails and not l3cfails and not viol:
         path = cl.write_nofail_replay(pid, "proof obligations of Properties_%s.v (%d of %d)" % (pid, po["discharged"], po["obligations"]), po["log"])
         print("VIOLATION property=%s replay=%s no-failing-input-found" % (pid, path))
         viol.append(path); rc = 1
@@ -272,7 +289,10 @@ def main(pid, tier, seed, replay_path=None):
                      "C14": "2-3 concurrent requests over >=2 scenarios, one thread each, under forced schedules at the four yield points (all 20 interleavings for 2 threads in thorough, samples otherwise), cold and warmed caches, both cache modes; non-trivial = distinct observed yield-point traces. Free-running phase: 4-8 threads started together behind a barrier, each with a list of 6 route/accessibility requests (rotated in every second round) over 2-3 scenarios against ONE TransitData, no forced scheduling (the hook yields with probability 0-60 % or does nothing, optional start jitter <= 100 us), a fresh TransitData every round, both cache modes, datasets of the generators plus a profile with a few hundred connections; every response compared with the sequential response of the same request and with the model; the same phase on a harness built with -fsanitize=thread (fewer rounds): every unsuppressed ThreadSanitizer report is a violation, the first report goes into the replay file",
                      "C15": "histories with refreshes of kind all / schedules / scenarios+schedules between dataset pairs (trips dropped, times moved, scenario lists changed), both cache modes; non-trivial = request for a scenario cached before the refresh"}[pid],
                samples=samples or [dict(note="none")], histories=len(cases), fresh_process_comparisons=fresh_checked,
-               disagreements=len(fails) + len(l3fails) + len(frfails) + len(l3hfails), exhaustive=False)
+               disagreements=len(fails) + len(l3fails) + len(frfails) + len(l3hfails) + len(l3cfails), exhaustive=False)
+    if l3c is not None:
+        cov.update(l3_concurrent_servers=l3c["histories"], l3_concurrent_answers=l3c["evaluations"], l3_concurrent_disagreements=len(l3cfails),
+                   l3_concurrent_rule="real binary with --threads=4 --useEuclideanDistance=true (answers are a function of the request alone), both cache modes: 8 client threads send one request set (route, alternatives, summary, accessibility, invalid requests; walking-limit sweep) in their own shuffled orders, 2 (quick) / 4 (thorough) rounds each; every response must equal the response of a one-thread server asked sequentially; the process must stay alive")
     if l3h is not None:
         cov.update(l3_histories=l3h["histories"], l3_answers=l3h["evaluations"], l3_requests=l3h["requests"],
                    l3_successful_requests=l3h["successful_requests"], l3_distinct_answers=l3h["distinct_answers"],
@@ -300,10 +320,12 @@ def main(pid, tier, seed, replay_path=None):
         l3res["evaluations"], l3res["histories"], " ".join("%s=%d" % kv for kv in sorted(l3res["kinds"].items())), l3res["answers_changed_by_refresh"], len(l3fails), l3res["wall_s"])
     frtxt = "" if fr is None else " free-running: %d responses in %d rounds (%d datasets, %d large), ThreadSanitizer: %d responses in %d rounds, %d reports, %d suppressions, %.1fs;" % (
         fr["responses"], fr["rounds"], fr["datasets"], fr["big_datasets"], fr["tsan_responses"], fr["tsan_rounds"], fr["tsan_reports"], len(fr["tsan_suppressions"]), fr.get("wall_s") or 0)
+    l3ctxt = "" if l3c is None else " L3 (real 4-thread server, 8 concurrent clients): %d answers on %d servers, %d differ from the idle server, %.1fs;" % (
+        l3c["evaluations"], l3c["histories"], len(l3cfails), l3c["wall_s"])
     l3htxt = "" if l3h is None else " L3 (real server, %d Euclidean + %d router-stub histories in 3 orders + fresh servers): %d answers to %d requests (%d successful), %d depend on the history, %.1fs;" % (
         l3h["euclidean_histories"], l3h["router_histories"], l3h["evaluations"], l3h["requests"], l3h["successful_requests"], len(l3hfails), l3h["wall_s"])
     print("%s %s: obligations %d/%d, %d responses in %d histories (%d non-trivial), %d fresh-process comparisons,%s%s%s %d violations, %.1fs" %
-          (pid, tier, po["discharged"], po["obligations"], evals, len(cases), cov["distinct_nontrivial"], fresh_checked, l3txt, frtxt, l3htxt, len(fails) + len(l3fails) + len(frfails) + len(l3hfails), time.time() - t0))
+          (pid, tier, po["discharged"], po["obligations"], evals, len(cases), cov["distinct_nontrivial"], fresh_checked, l3txt, frtxt, l3htxt + l3ctxt, len(fails) + len(l3fails) + len(frfails) + len(l3hfails) + len(l3cfails), time.time() - t0))
     return rc
 
 
